@@ -142,6 +142,8 @@ def gen_cases(tier, rng):
             m4 = a[3:6] + [a[0]] + a[6:9] + [a[1]] + a[9:12] + [a[2]] + [0.0, 0.0, 0.0, 1.0]
             m4 = [f32(x * a[12]) if k % 4 != 3 and k < 12 else x for k, x in enumerate(m4)]
             cases.append(("mat4inv", (m4,)))
+            n4 = [f32(rng.uniform(-3, 3)) for _ in range(16)] if i % 8 else [f32(x) for x in m4[::-1]]
+            cases.append(("mat4mul", (m4, n4)))
         if i % 8 == 0:
             nv = rng.choice([3, 4, 10, 40])
             v1 = [f32(rng.uniform(-50, 50)) for _ in range(3 * nv)]
@@ -181,6 +183,8 @@ def lines_for(kind, p):
         return f"c20.bsphere {hexes(p[0])}", None
     if kind == "mat4inv":
         return f"c20.mat4inv {hexes(p[0])}", f"c20.mat4inv {rats(p[0])}"
+    if kind == "mat4mul":
+        return f"c20.mat4mul {hexes(p[0])} {hexes(p[1])}", f"c20.mat4mul {rats(p[0])} {rats(p[1])}"
     if kind == "bounds":
         return f"c20.bounds {p[0]} {hexes(p[1])} {hexes(p[2])}", None
 
@@ -278,6 +282,13 @@ def judge(kind, p, out, model):
             einv, edet = model.split(" ")
             if not vec_close(inv, unrats(einv), mag(unrats(einv)), 20):
                 mis = "mat4 inverse differs from exact evaluation"
+    elif kind == "mat4mul":
+        prod, acc = unhexes(parts[0]), unhexes(parts[1])
+        if prod != acc:
+            bad = f"mat4: operator* and operator*= disagree: {prod} vs {acc}"
+        if model:
+            if not vec_close(prod, unrats(model), mag(p[0]) * mag(p[1]), 8):
+                mis = f"mat4 product differs from exact evaluation: {prod} vs {[float(x) for x in unrats(model)]}"
     elif kind == "bounds":
         if out == "no-shape":
             return "CreateShapeFromData failed", None
